@@ -427,11 +427,11 @@ class Pair:
         if link.broken:
             return True
         if link.framing == 'bytes':
-            return all(not p.buf for p in link.pipes.values())
+            return all((not p.buf) or p.task.done() for p in link.pipes.values())
         if hasattr(link, 'sockets'):
             return all(q.empty() for q in link.queues.values()) and all(s.inbox.empty() for s in link.sockets.values()) \
                 and all(t._outgoing_frame_queue.empty() for t in link.transports.values())
-        return all(q.empty() for q in link.queues.values())
+        return all(q.empty() or link.tasks[k].done() for k, q in link.queues.items())
 
     def instrument_queue(self):
         """Record, per endpoint, the order in which frames enter its send path (C05, C08)."""
